@@ -60,6 +60,7 @@ type TermFactory struct {
 	funcs map[string]*FuncDecl
 	fresh map[string]int
 	dts   *DTRegistry
+	axioms map[string]string // function name -> defining axiom (SMT-LIB text), emitted when the function is used
 }
 
 type FuncDecl struct {
@@ -69,7 +70,7 @@ type FuncDecl struct {
 }
 
 func NewFactory() *TermFactory {
-	return &TermFactory{tab: map[string]*Term{}, vars: map[string]*Term{}, funcs: map[string]*FuncDecl{}, fresh: map[string]int{}, dts: NewDTRegistry()}
+	return &TermFactory{tab: map[string]*Term{}, vars: map[string]*Term{}, funcs: map[string]*FuncDecl{}, fresh: map[string]int{}, dts: NewDTRegistry(), axioms: map[string]string{}}
 }
 
 func (f *TermFactory) intern(t *Term) *Term {
@@ -520,6 +521,26 @@ func (f *TermFactory) Select(arr, idx *Term) *Term {
 	}
 	if cur.op == "constarr" {
 		return cur.args[0]
+	}
+	if cur.op == "ite" && cur.args[1].sort.IsArray() && (isPointwise(cur.args[1]) || isPointwise(cur.args[2])) {
+		return f.Ite(cur.args[0], f.Select(cur.args[1], idx), f.Select(cur.args[2], idx))
+	}
+	if cur.op == "app" {
+		// pointwise operations on coin sets: push the read through (their defining axioms say the same)
+		switch cur.name {
+		case "coins.add":
+			return f.Add(f.Select(cur.args[0], idx), f.Select(cur.args[1], idx))
+		case "coins.sub":
+			return f.Sub(f.Select(cur.args[0], idx), f.Select(cur.args[1], idx))
+		case "coins.mulint":
+			return f.Mul(f.Select(cur.args[0], idx), cur.args[1])
+		case "coins.quoint":
+			return f.Div(f.Select(cur.args[0], idx), cur.args[1])
+		case "deccoins.muldectrunc":
+			return f.Div(f.Mul(f.Select(cur.args[0], idx), cur.args[1]), f.BigInt(new(big.Int).Exp(big.NewInt(10), big.NewInt(18), nil)))
+		case "deccoins.quodectrunc":
+			return f.Div(f.Mul(f.Select(cur.args[0], idx), f.BigInt(new(big.Int).Exp(big.NewInt(10), big.NewInt(18), nil))), cur.args[1])
+		}
 	}
 	if cur.op == "ite" && (cur.args[1].op == "store" || cur.args[2].op == "store") && false {
 		return f.Ite(cur.args[0], f.Select(cur.args[1], idx), f.Select(cur.args[2], idx))
@@ -985,6 +1006,12 @@ func (sc *Script) Render(cvc5 bool) string {
 			sb.WriteString(string(a))
 		}
 		sb.WriteString(") " + string(fd.ret) + ")\n")
+	}
+	for _, n := range fnames {
+		if ax, ok := f.axioms[n]; ok {
+			sb.WriteString(ax)
+			sb.WriteByte('\n')
+		}
 	}
 	for _, l := range lits {
 		// string literal lengths
